@@ -87,7 +87,8 @@ func gammaIncDirected() []axPoint {
 	l = append(l, axPoint{0.5, 0.1}, axPoint{5, 2.5}, axPoint{3.3, 1.0}, axPoint{0.01, 0.01}, axPoint{5.5, 2.5})
 	// witnesses first seen in sweeps (kept here so that every listed finding has a seed-independent witness)
 	l = append(l, axPoint{1.1996836482855808, 3.052436437768275e-269}, axPoint{8.624467920850712, 5.28421872237198e-37},
-		axPoint{10000, 10000.000033333336}, axPoint{300000, 300709.83846205834})
+		axPoint{10000, 10000.000033333336}, axPoint{300000, 300709.83846205834},
+		axPoint{224728.5937846063, 206930.50703866268}, axPoint{178.50676271976246, 90.85211842562948}, axPoint{171.57221180725455, 115.12335181183361})
 	for _, a := range gammaIncA() {
 		for _, x := range gammaIncX(a) {
 			l = append(l, axPoint{a, x})
